@@ -192,4 +192,153 @@ def stored (z : Int) (b : Bound) : Int := b.getD z
 /-- `z` is the rank of the type's zero value (0 for numeric columns, below every rank for byte arrays: the empty string) -/
 def writerOrder (z : Int) (ix : Index) : Nat := boundaryOrder (ix.mins.map (stored z)) (ix.maxs.map (stored z))
 
+/-! ### linear search is correct for every index; the dispatch never misses -/
+
+theorem lloop_test_eq (ix : Index) (v : Int) (i : Nat) :
+    (leNL (minAt ix i) (some v) && leNL (some v) (maxAt ix i)) = contains ix i v := rfl
+
+/-- `lloop` started at `i` returns the first page at or after `i` whose bounds contain `v`, else `n` -/
+theorem lloop_spec (ix : Index) (v : Int) : ∀ (fuel i : Nat), ix.n - i ≤ fuel → i ≤ ix.n →
+    i ≤ lloop ix v fuel i ∧ lloop ix v fuel i ≤ ix.n ∧
+    (lloop ix v fuel i < ix.n → contains ix (lloop ix v fuel i) v = true) ∧
+    (∀ j, i ≤ j → j < lloop ix v fuel i → contains ix j v = false)
+  | 0, i, hf, hi => by
+    have : i = ix.n := by omega
+    subst this
+    simp only [lloop]
+    exact ⟨Nat.le_refl _, Nat.le_refl _, fun h => absurd h (Nat.lt_irrefl _), fun j h1 h2 => by omega⟩
+  | fuel + 1, i, hf, hi => by
+    simp only [lloop]
+    by_cases hlt : i < ix.n
+    · rw [if_pos hlt, lloop_test_eq]
+      by_cases hc : contains ix i v = true
+      · rw [if_pos hc]
+        exact ⟨Nat.le_refl _, hi, fun _ => hc, fun j h1 h2 => by omega⟩
+      · rw [if_neg hc]
+        have hc' : contains ix i v = false := by simpa using hc
+        obtain ⟨h1, h2, h3, h4⟩ := lloop_spec ix v fuel (i + 1) (by omega) (by omega)
+        refine ⟨by omega, h2, h3, ?_⟩
+        intro j hj1 hj2
+        by_cases hji : j = i
+        · subst hji; exact hc'
+        · exact h4 j (by omega) hj2
+    · rw [if_neg hlt]
+      exact ⟨Nat.le_refl _, hi, fun h => absurd h hlt, fun j h1 h2 => by omega⟩
+
+theorem linearSearch_first (ix : Index) (v : Int) :
+    linearSearch ix v ≤ ix.n ∧
+    (linearSearch ix v < ix.n → contains ix (linearSearch ix v) v = true) ∧
+    (∀ i, i < ix.n → contains ix i v = true → linearSearch ix v ≤ i) := by
+  obtain ⟨_, h2, h3, h4⟩ := lloop_spec ix v ix.n 0 (by omega) (by omega)
+  refine ⟨h2, h3, ?_⟩
+  intro i hi hc
+  unfold linearSearch
+  cases Nat.lt_or_ge i (lloop ix v ix.n 0) with
+  | inl hlt => have := h4 i (by omega) hlt; simp [this] at hc
+  | inr hge => exact hge
+
+/-- adjacent-pair ascending check ⇒ sorted by index -/
+theorem isAsc_getD : ∀ (xs : List Int), isAsc xs = true → ∀ i j, i ≤ j → j < xs.length →
+    xs.getD i 0 ≤ xs.getD j 0
+  | [], _, _, _, _, hj => by simp at hj
+  | [a], _, i, j, hij, hj => by
+    have : j = 0 := by simpa using hj
+    subst this
+    have : i = 0 := by omega
+    subst this
+    exact Int.le_refl _
+  | a :: b :: rest, h, i, j, hij, hj => by
+    simp only [isAsc, Bool.and_eq_true, decide_eq_true_eq] at h
+    have ih := isAsc_getD (b :: rest) h.2
+    cases j with
+    | zero =>
+      have : i = 0 := by omega
+      subst this; exact Int.le_refl _
+    | succ j' =>
+      cases i with
+      | zero =>
+        have h0 := ih 0 j' (by omega) (by simpa using hj)
+        simp only [List.getD_cons_zero, List.getD_cons_succ] at h0 ⊢
+        omega
+      | succ i' =>
+        have := ih i' j' (by omega) (by simpa using hj)
+        simpa only [List.getD_cons_succ] using this
+
+theorem any_isNone_false_getD : ∀ (l : List Bound) (i : Nat), l.any Option.isNone = false → i < l.length →
+    ∃ x, l.getD i none = some x
+  | [], _, _, hi => by simp at hi
+  | a :: t, i, h, hi => by
+    simp only [List.any_cons, Bool.or_eq_false_iff] at h
+    cases i with
+    | zero =>
+      cases a with
+      | none => simp at h
+      | some x => exact ⟨x, rfl⟩
+    | succ i' =>
+      simpa only [List.getD_cons_succ] using any_isNone_false_getD t i' h.2 (by simpa using hi)
+
+theorem getD_map_stored (z : Int) : ∀ (l : List Bound) (i : Nat) (x : Int), l.getD i none = some x →
+    (l.map (stored z)).getD i 0 = x
+  | [], _, _, h => by simp at h
+  | a :: t, 0, x, h => by
+    simp only [List.getD_cons_zero] at h
+    simp [h, stored]
+  | a :: t, i + 1, x, h => by
+    simp only [List.getD_cons_succ] at h
+    simpa only [List.map_cons, List.getD_cons_succ] using getD_map_stored z t i x h
+
+theorem orderOf_pos {xs : List Int} (h : orderOf xs > 0) : isAsc xs = true := by
+  unfold orderOf at h
+  split at h
+  · split at h
+    · assumption
+    · split at h <;> omega
+  · omega
+
+/-- The flag the WRITER computes is truthful: if the column index it builds (null pages stored as the
+    zero value `z`) is flagged ASCENDING, has no null page, and every page has `min ≤ max`, then it is
+    `Ascending` in the sense `binarySearch_first` needs. -/
+theorem writerOrder_ascending (z : Int) (ix : Index) (hlen : ix.maxs.length = ix.mins.length)
+    (hw : writerOrder z ix = 1) (hnn : hasNull ix = false)
+    (hle : ∀ i a b, i < ix.n → minAt ix i = some a → maxAt ix i = some b → a ≤ b) :
+    ∃ mn mx, Ascending ix mn mx := by
+  simp only [hasNull, Bool.or_eq_false_iff] at hnn
+  have hmin : ∀ i, i < ix.n → ∃ x, minAt ix i = some x := fun i hi =>
+    any_isNone_false_getD ix.mins i hnn.1 hi
+  have hmax : ∀ i, i < ix.n → ∃ x, maxAt ix i = some x := fun i hi =>
+    any_isNone_false_getD ix.maxs i hnn.2 (by simp only [Index.n] at hi; omega)
+  refine ⟨fun i => (minAt ix i).getD 0, fun i => (maxAt ix i).getD 0, ?_⟩
+  -- both orderOf results are positive
+  have hpos : orderOf (ix.mins.map (stored z)) > 0 ∧ orderOf (ix.maxs.map (stored z)) > 0 := by
+    simp only [writerOrder, boundaryOrder] at hw
+    split at hw
+    · rename_i heq
+      split at hw
+      · rename_i hp; exact ⟨hp, by omega⟩
+      · split at hw <;> simp at hw
+    · simp at hw
+  have ha1 := isAsc_getD _ (orderOf_pos hpos.1)
+  have ha2 := isAsc_getD _ (orderOf_pos hpos.2)
+  exact {
+    len := hlen
+    mins := fun i hi => by obtain ⟨x, hx⟩ := hmin i hi; simp [hx]
+    maxs := fun i hi => by obtain ⟨x, hx⟩ := hmax i hi; simp [hx]
+    smin := fun i j hij hj => by
+      obtain ⟨x, hx⟩ := hmin i (by omega)
+      obtain ⟨y, hy⟩ := hmin j hj
+      have := ha1 i j hij (by simpa [Index.n] using hj)
+      rw [getD_map_stored z ix.mins i x hx, getD_map_stored z ix.mins j y hy] at this
+      simpa [hx, hy] using this
+    smax := fun i j hij hj => by
+      obtain ⟨x, hx⟩ := hmax i (by omega)
+      obtain ⟨y, hy⟩ := hmax j hj
+      have := ha2 i j hij (by simp only [Index.n] at hj; simp; omega)
+      rw [getD_map_stored z ix.maxs i x hx, getD_map_stored z ix.maxs j y hy] at this
+      simpa [hx, hy] using this
+    le := fun i hi => by
+      obtain ⟨x, hx⟩ := hmin i hi
+      obtain ⟨y, hy⟩ := hmax i hi
+      have := hle i x y hi hx hy
+      simpa [hx, hy] using this }
+
 end PqModel.Search
